@@ -180,5 +180,17 @@ impl Zoo for OptEnums {
     const NAME: &'static str = "OptEnums"; const NEEDS_NULL: bool = true;
     fn ty() -> String { let s1 = "TyEnum [(b \"Only\", PUnit)]"; let u3 = "TyEnum [(b \"X\", PUnit); (b \"Y\", PUnit); (b \"Z\", PUnit)]"; format!("TyStruct [(b \"a\", TyOption ({s1})); (b \"b\", TyOption ({u3})); (b \"c\", TyEnum [(b \"V\", PNewtype (TyOption ({s1}))); (b \"W\", PStruct [(b \"inner\", TyOption ({u3}))])]); (b \"l\", TySeq (TyOption ({s1})))]") }
     fn gen(rng: &mut Rng) -> Self { OptEnums { a: if rng.chance(1, 2) { Some(Single::Only) } else { None }, b: if rng.chance(1, 2) { Some(u3(rng.below(3))) } else { None }, c: if rng.chance(1, 2) { Outer::V(if rng.chance(1, 2) { Some(Single::Only) } else { None }) } else { Outer::W { inner: if rng.chance(1, 2) { Some(Unit3::Y) } else { None } } }, l: (0..rng.below(4)).map(|_| if rng.chance(1, 2) { Some(Single::Only) } else { None }).collect() } }
-    fn covering(_: &mut Rng) -> Vec<Self> { vec![OptEnums { a: Some(Single::Only), b: Some(Unit3::X), c: Outer::V(Some(Single::Only)), l: vec![Some(Single::Only)] }, OptEnums { a: Some(Single::Only), b: Some(Unit3::Y), c: Outer::W { inner: Some(Unit3::Z) }, l: vec![Some(Single::Only)] }, OptEnums { a: Some(Single::Only), b: Some(Unit3::Z), c: Outer::W { inner: Some(Unit3::X) }, l: vec![] }] }
+    fn covering(_: &mut Rng) -> Vec<Self> { vec![OptEnums { a: Some(Single::Only), b: Some(Unit3::X), c: Outer::V(Some(Single::Only)), l: vec![Some(Single::Only)] }, OptEnums { a: Some(Single::Only), b: Some(Unit3::Y), c: Outer::W { inner: Some(Unit3::Z) }, l: vec![Some(Single::Only)] }, OptEnums { a: Some(Single::Only), b: Some(Unit3::Z), c: Outer::W { inner: Some(Unit3::X) }, l: vec![] }, OptEnums { a: None, b: None, c: Outer::W { inner: Some(Unit3::Y) }, l: vec![None] }] }
+}
+
+// (no other member needs more than one pass of from_type, so the key tracers alone decide completion)
+// maps whose keys are not strings: enum keys with data in later variants, integer keys, tuple values
+#[derive(Serialize, Deserialize, PartialEq, Eq, PartialOrd, Ord, Debug, Clone)] pub enum Key { Unit, Name(String), Id { n: u32 } }
+#[derive(Serialize, Deserialize, PartialEq, Debug, Clone)] pub struct KeyMaps { pub by: BTreeMap<Key, i32>, pub ids: BTreeMap<u16, Option<bool>>, pub nested: Vec<BTreeMap<Key, (i8, bool)>> }
+fn key(rng: &mut Rng, k: usize) -> Key { match k % 3 { 0 => Key::Unit, 1 => Key::Name(s(rng)), _ => Key::Id { n: int(rng, 0, u32::MAX as i128) } } }
+impl Zoo for KeyMaps {
+    const NAME: &'static str = "KeyMaps"; const NEEDS_NULL: bool = true; const HAS_MAP: bool = true;
+    fn ty() -> String { let k = "TyEnum [(b \"Unit\", PUnit); (b \"Name\", PNewtype TyString); (b \"Id\", PStruct [(b \"n\", TyInt U32)])]"; format!("TyStruct [(b \"by\", TyMap ({k}) (TyInt I32)); (b \"ids\", TyMap (TyInt U16) (TyOption TyBool)); (b \"nested\", TySeq (TyMap ({k}) (TyTuple [TyInt I8; TyBool])))]") }
+    fn gen(rng: &mut Rng) -> Self { KeyMaps { by: (0..rng.below(4)).map(|i| (key(rng, i), i as i32)).collect(), ids: (0..rng.below(3)).map(|i| (i as u16 * 7, if rng.chance(1, 3) { None } else { Some(i % 2 == 0) })).collect(), nested: (0..rng.below(3)).map(|_| (0..rng.below(3)).map(|i| (key(rng, i + 2), (int(rng, -128, 127), rng.chance(1, 2)))).collect()).collect() } }
+    fn covering(rng: &mut Rng) -> Vec<Self> { vec![KeyMaps { by: (0..3).map(|i| (key(rng, i), 1)).collect(), ids: (0..3).map(|i| (i as u16, Some(i == 1))).collect(), nested: vec![(0..3).map(|i| (key(rng, i), (1, true))).collect()] }] }
 }
